@@ -1,6 +1,6 @@
 From H2 Require Import Base.Prelude Base.PyDict Model.FsmTypes Gen.Consts Gen.Tables Gen.Guards
   Model.Types Model.Windows Model.WmHist Model.SettingsV Model.Settings Model.StreamFSM Model.Headers
-  Model.Stream Model.ConnState Model.Connection Proofs.ConstFacts Proofs.Frame Proofs.FrameConn.
+  Model.Stream Model.ConnState Model.Connection Proofs.ConstFacts Proofs.Frame Proofs.FrameConn Proofs.C29Proofs.
 
 (* the number of streams of parity [r] that count against MAX_CONCURRENT_STREAMS *)
 Definition counts (r : Z) (kv : Z * stream) : bool := s_open (snd kv) && (fst kv mod 2 =? r).
@@ -46,7 +46,10 @@ Lemma send_headers_new_stream_respects_limit sid hs L es pw pd pe c c' :
   api_send_headers sid hs L es pw pd pe c = (c', Ok tt) ->
   open_count (b2z (client c)) c + 1 <= s_max_concurrent_streams (c_remote c).
 Proof.
-  intros Hm H. unfold api_send_headers in H. unfold bind at 1 in H. unfold get at 1 in H. rewrite Hm in H.
+  intros Hm H. assert (Hc : client c = true).
+  { destruct (client c) eqn:Hc; [reflexivity|]. rewrite (server_send_headers_ok_known _ _ _ _ _ _ _ _ _ Hc H) in Hm. discriminate. }
+  unfold api_send_headers in H. unfold bind at 1 in H. unfold get at 1 in H. rewrite Hc in H.
+  unfold bind at 1 in H. unfold ret at 1 in H. rewrite Hm in H.
   unfold bind at 1 in H. unfold bind at 1 in H. unfold open_outbound_streams at 1 in H.
   unfold bind at 1 in H. unfold get at 1 in H.
   destruct (open_streams_spec (b2z (client c)) c) as (c1 & E1 & Hk). rewrite E1 in H.
@@ -60,11 +63,12 @@ Qed.
 
 (* and is refused with TooManyStreamsError, nothing emitted, when it would exceed it *)
 Lemma send_headers_over_limit sid hs L es pw pd pe c :
-  dmem sid (c_streams c) = false ->
+  client c = true -> dmem sid (c_streams c) = false ->
   open_count (b2z (client c)) c + 1 > s_max_concurrent_streams (c_remote c) ->
   exists c', api_send_headers sid hs L es pw pd pe c = (c', Err TooManyStreamsError 1 0 false) /\ c_out c' = c_out c.
 Proof.
-  intros Hm Hgt. unfold api_send_headers. unfold bind at 1. unfold get at 1. rewrite Hm.
+  intros Hc Hm Hgt. unfold api_send_headers. unfold bind at 1. unfold get at 1. rewrite Hc.
+  unfold bind at 1. unfold ret at 1. rewrite Hm.
   unfold bind at 1. unfold bind at 1. unfold open_outbound_streams at 1. unfold bind at 1. unfold get at 1.
   destruct (open_streams_spec (b2z (client c)) c) as (c1 & E1 & Hk). rewrite E1.
   unfold bind at 1. unfold get at 1.
